@@ -338,7 +338,26 @@ class Lib:
         idx = self._norm_idx_tuple(base, idx)
         shape = base.shape
         # fancy indexing?
-        fancy = [k for k, it in enumerate(idx) if is_arr(it) or isinstance(it, (list, range))]
+        from .interp import SymRange
+        if any(isinstance(it, SymRange) or isinstance(it, range) for it in idx):
+            # indexing with range(k): the same elements as the slice [start:stop:step] (a copy in numpy; a view here is
+            # equivalent for reads, and eqsig never stores through such a result)
+            ax_ = 0
+            for it in idx:
+                if isinstance(it, (SymRange, range)):
+                    if it.step != 1:
+                        raise EngineError('range index with step')
+                    ok = T.sand(T.sle(0, it.start), T.sor(T.sle(it.stop, it.start), T.sle(it.stop, base.shape[ax_])))
+                    if ok is False:
+                        raise PyExc('IndexError', 'range index out of bounds')
+                    if ok is not True:
+                        self.interp.oblige('range-index-in-bounds', ok)
+                if it is not None:
+                    ax_ += 1
+            idx = tuple(slice(it.start, it.stop, it.step) if isinstance(it, (SymRange, range)) else it for it in idx)
+            r = self.arr_getitem(base, idx)
+            return self.table['numpy.array'](r) if is_arr(r) else r
+        fancy = [k for k, it in enumerate(idx) if is_arr(it) or isinstance(it, list)]
         if fancy:
             return self.fancy_get(base, idx, fancy)
         # scalar bounds checks
